@@ -105,8 +105,8 @@ end C18
 namespace C18
 open Tak Roads
 
-/-- **C18, first half, rule-book form.**  On a well-formed board (C02's `RoadWF`: sizes 3..8, bitboards on the board and disjoint, groups = `analyze`)
-of at most 64 squares whose game is *not over by the rules of Tak*, every built-in weight set gives a value
+/-- **C18, first half, rule-book form.**  On a well-formed board (C02's `RoadWF`: sizes 3..8, bitboards on
+the board and disjoint, groups = `analyze`) of at most 64 squares whose game is *not over by the rules of Tak*, every built-in weight set gives a value
 strictly inside the undecided range. -/
 theorem undecided_inside_rules (c : Consts) (w : Weights) (hw : w ∈ builtinWeights) (p : Pos) (wf : RoadWF p)
     (hn : p.height.size ≤ 64) (hno : (Spec.outcome (Spec.abs p)).over = false)
@@ -149,8 +149,8 @@ theorem eval_total (w : Weights) (p : Pos) (wf : RoadWF p) (hst : p.height.size 
   evaluate_total w p wf hst
 
 /-- **C18 in one statement** for the constants the engine uses (`c = Precompute(size)`), in the rule book's
-terms: a value is always returned; it is strictly inside `(-WinThreshold, WinThreshold)` iff … the game is
-not over; for a finished game (ply ≤ 2·10^6) it is 0 for a draw and beyond the threshold with the sign of
+terms: a value is always returned, within `[MinEval, MaxEval]`; it is strictly inside
+`(-WinThreshold, WinThreshold)` when the game is not over; for a finished game (ply ≤ 2·10^6) it is 0 for a draw and beyond the threshold with the sign of
 winner-vs-mover otherwise. -/
 theorem c18 (w : Weights) (hw : w ∈ builtinWeights) (p : Pos) (wf : RoadWF p)
     (hh : p.height.size ≤ 64) (hst : p.height.size ≤ p.stacks.size) (h0 : 0 ≤ p.move) (hN : p.move ≤ 2000000) :
